@@ -85,7 +85,7 @@ class C08(Prop):
     id = "C08"
     level = "exploration"
     technique = "reference reply encoder served by a fake device over TCP; field-by-field comparison of the objects the real API returns"
-    rule = ("case = one connection answering 24 state queries; every field sweeps its domain across cases (power 0..65535, three time "
+    rule = ("case = one type-1 and one type-2 connection answering 24 state queries with the three reply families interleaved (rotating order); every field sweeps its domain across cases (power 0..65535, three time "
             "fields 0..86399, position 0..255, temperature 0..65535 tenths, target 0..255, all enumerants, remote ids of 1..8 chars) while "
             "the others are random, half of the type-1 replies with random filler in non-field bytes; distinct = (reply kind, all field "
             "values); non-trivial = all")
@@ -120,8 +120,6 @@ class C08(Prop):
     async def run_case(self, case, acc, ctx):
         i = case["i"]
         r = env.rng("C08", case["seed"], i)
-        kind = ("state1", "shutter", "thermo")[i % 3]
-        t = 1 if kind == "state1" else 2
         queue = []
         issued = []
 
@@ -134,22 +132,29 @@ class C08(Prop):
             return queue.pop(0)
 
         self.dev.responder = responder
-        cl = await self.rig.connect(self.dev, t, gen.device_id(r), gen.device_key(r))
+        from aioswitcher.device import DeviceType
+
+        c1 = await self.rig.connect(self.dev, 1, gen.device_id(r), gen.device_key(r))
+        c2 = await self.rig.connect(self.dev, 2, gen.device_id(r), gen.device_key(r))
         try:
+            # all three reply families are parsed in one process, interleaved in an order that rotates with the case:
+            # anything remembered from one family's reply is wrong for the next
+            order = [("state1", "shutter", "thermo"), ("thermo", "state1", "shutter"), ("shutter", "thermo", "state1")][i % 3]
             for q in range(24):
-                j = i * 24 + q
+                kind = order[q % 3] if (i // 3) % 2 == 0 else order[(q // 8) % 3]
+                j = i * 8 + q // 3
                 if kind == "state1":
                     d = gen_state1(r, j)
                     reply = replies.state1(d, filler=r.randbytes(replies.STATE1_LEN) if q % 2 else None)
-                    call = cl.api.get_state
+                    call = c1.api.get_state
                 elif kind == "shutter":
                     d = gen_shutter(r, j)
                     reply = replies.shutter(d)
-                    call = cl.api.get_shutter_state
+                    call = c2.api.get_shutter_state
                 else:
                     d = gen_thermo(r, j)
                     reply = replies.thermostat(d)
-                    call = cl.api.get_breeze_state
+                    call = c2.api.get_breeze_state
                 queue.append(reply)
                 acc.ev()
                 try:
@@ -165,11 +170,9 @@ class C08(Prop):
                 acc.sig(env.sig(kind, sorted(d.items())))
                 acc.count(f"replies_{kind}")
             # login reply: the four session bytes at offset 8
-            for _ in range(2):
+            for cl, t in ((c1, 1), (c2, 2)):
                 acc.ev()
                 n0 = len(issued)
-                from aioswitcher.device import DeviceType
-
                 ts, lr = await (cl.api._login() if t == 1 else cl.api._login(DeviceType.BREEZE))
                 if lr.session_id != issued[n0].hex():
                     acc.violation("field-wrong:login:session_id", f"login reply with session {issued[n0].hex()} parsed as {lr.session_id!r}",
@@ -177,7 +180,8 @@ class C08(Prop):
                 acc.sig(env.sig("login", issued[n0]))
                 acc.count("replies_login")
         finally:
-            await cl.close()
+            await c1.close()
+            await c2.close()
         if i % 300 < 3:
             acc.sample({"kind": kind, "last_desc": d, "last_reply": reply.hex()[:100] + "..."})
 
